@@ -1,1 +1,2 @@
 pub mod w1;
+pub mod w2;
